@@ -42,7 +42,10 @@ var injectKinds = []string{"goto", "labelled-break", "labelled-continue", "selec
 	// called through it in the generator: the call is not a yield for the compiler
 	"yield-as-package-level-value",
 	// fallthrough directly behind a compound statement that yields on some paths only
-	"fallthrough-after-yielding-if", "fallthrough-after-yielding-if-else", "fallthrough-after-yielding-switch"}
+	"fallthrough-after-yielding-if", "fallthrough-after-yielding-if-else", "fallthrough-after-yielding-switch",
+	// a defer BEHIND a yield of the same loop body / branch / bare block, with nothing that
+	// yields behind it in its own statement list (deferred calls run when the generator ends)
+	"defer-after-yield-in-loop", "defer-after-yield-in-if", "defer-in-bare-block-after-yield"}
 
 // rawInject returns the source text of the construct (placeholders as in templates).
 func rawInject(kind string, tag func() int, control bool) string {
@@ -75,6 +78,12 @@ func rawInject(kind string, tag func() int, control bool) string {
 		return fmt.Sprintf("for f9 := 0; f9 < 2; f9++ {\n\tswitch 1 {\n\tcase 1:\n\t\tif f9 == 0 {\n\t\t\tvrt.E(%d)\n\t\t} else {\n\t\t\t%s\n\t\t}\n\t\tfallthrough\n\tcase 2:\n\t\t%s\n\t}\n}", tag(), y("95"), y("96+f9"))
 	case "fallthrough-after-yielding-switch":
 		return fmt.Sprintf("for f9 := 0; f9 < 3; f9++ {\n\tswitch {\n\tcase f9 < 2:\n\t\tswitch f9 {\n\t\tcase 1:\n\t\t\t%s\n\t\t}\n\t\tfallthrough\n\tdefault:\n\t\t%s\n\t}\n}", y("95"), y("96+f9"))
+	case "defer-after-yield-in-loop":
+		return fmt.Sprintf("for d9 := 0; d9 < 3; d9++ {\n\t%s\n\tdefer vrt.E(%d, d9)\n}\nvrt.E(%d)\n%s\nvrt.E(%d)", y("d9"), tag(), tag(), y("99"), tag())
+	case "defer-after-yield-in-if":
+		return fmt.Sprintf("if vrt.B(%d, true) {\n\t%s\n\tdefer vrt.E(%d)\n}\nvrt.E(%d)\n%s\nvrt.E(%d)", tag(), y("98"), tag(), tag(), y("97"), tag())
+	case "defer-in-bare-block-after-yield":
+		return fmt.Sprintf("%s\n{\n\tdefer vrt.E(%d)\n}\nvrt.E(%d)\n%s\nvrt.E(%d)", y("96"), tag(), tag(), y("95"), tag())
 	case "range-func":
 		return fmt.Sprintf("for v9 := range func(yield func(int) bool) {\n\t_ = yield(1) && yield(2)\n} {\n\t%s\n}", y("v9"))
 	case "range-ptr-array":
